@@ -100,9 +100,17 @@ def worker_main(argv) -> int:
         except BaseException as exc:  # harness error
             if isinstance(exc, KeyboardInterrupt):
                 raise
-            if type(exc).__name__ == "Livelock":
-                res = {"viol": [{"key": "livelock", "what": str(exc), "detail": {"case": case}}], "counters": {}}
-            else:
+            res = None
+            stack = [exc]
+            while stack and res is None:
+                x = stack.pop()
+                if type(x).__name__ == "Livelock":
+                    res = {"viol": [{"key": "livelock", "what": str(x), "detail": {"case": case}}], "counters": {}}
+                elif isinstance(x, WallTimeout):
+                    # the alarm went off inside a task: it arrives wrapped in the task group's exception group
+                    res = {"viol": [], "counters": {}, "inconclusive": f"wall-clock {per_case}s exceeded"}
+                stack.extend(getattr(x, "exceptions", []) or [])
+            if res is None:
                 res = {"viol": [], "counters": {}, "error": "".join(traceback.format_exception(exc))[-3000:]}
         res["case"] = case
         res["wall"] = time.time() - t0
